@@ -112,3 +112,41 @@ func ZZC10Range() {
 	_ = strconv.Itoa
 	zzWitness("end")
 }
+
+// ZZC10Funcs: generated programs with a recursive function, a procedure,
+// parameters and locals that shadow globals, calls from inside loops and
+// before the definition, `return` and `break` at any nesting depth of the
+// callee; x, y and the condition variable are symbolic.
+func ZZC10Funcs() {
+	D := zzParam("D", 2)
+	cfg := &zz2Cfg{maxDepth: D, lens: []int{zzParam("L0", 2), zzParam("L1", 1), zzParam("L2", 1), 1, 1}, recDepth: zzParam("R", 1), all: zzParam("ALL", 0) == 1, mainSkew: zzParam("SKEW", 1)}
+	gp := zz2GenProg(cfg)
+	src := gp.render()
+	p := &zzPlat{}
+	ev := NewEvaluator(p)
+	prog := zzMustParse(ev, src, "C10 funcs")
+	if prog == nil {
+		return
+	}
+	x, y, c0 := zzFloat64("x"), zzFloat64("y"), zzBool("c0")
+	zzSetNum(prog, 0, x)
+	zzSetNum(prog, 1, y)
+	zzSetBool(prog, 2, c0)
+	err := ev.Eval(prog)
+	zzAssert(err == nil, "C10 funcs: generated program runs without error")
+	if err != nil {
+		return
+	}
+	want, _ := zz2RunRef(gp, x, y, c0)
+	if p.out() != want {
+		zzLog("C10 funcs mismatch on:\n" + src)
+	}
+	zzAssert(p.out() == want, "C10 funcs: a function body sees its parameters, its own locals and the globals, also under recursion; return leaves exactly the current call, break the innermost loop")
+	if gp.b1 != nil {
+		zzReach("funcs-f")
+	}
+	if gp.b3 != nil {
+		zzReach("funcs-g")
+	}
+	zzWitness("end")
+}
